@@ -1,5 +1,5 @@
 /- Line-protocol driver for the worker-pool model (engine `pool`, C16).
-   Case:   `seq <size> | op ; op ; …`   op = ok | err | panic | burst:<k>,<k>,…
+   Case:   `seq <size> | op ; op ; …`   op = ok | err | panic | burst:<k>,<k>,… | idle
    Answer: one word per job in submission order, then `| live=<n>`. -/
 import AxVerif.Model.Pool
 import AxVerif.Model.Bytes
@@ -53,7 +53,8 @@ def stepLine (D : Defects) (line : String) : String :=
   | [head, body] =>
     match words head with
     | ["seq", n] =>
-      match n.toNat?, parseOps (body.splitOn ";") with
+      -- `idle` (a pause of the client; the workers of the model do not go away) submits nothing
+      match n.toNat?, parseOps ((body.splitOn ";").filter (fun w => w.trimAscii.toString != "idle")) with
       | some n, some ops =>
         if n = 0 ∨ n > maxSize ∨ (ops.map Op.jobs).sum > maxJobs then "bad-op"
         else
